@@ -25,3 +25,4 @@ import Eliot.Properties.C09Flat
 #print axioms PM.pdom_of_spec
 #print axioms PM.C09Flat.flat_parse_stream_follows_spec
 #print axioms PM.C09Flat.PInv.get
+#print axioms PM.C09Flat.flat_perm_invariant
